@@ -124,9 +124,13 @@ pub fn generate(prop: &str, seed: u64, tier: &str, programs: Option<usize>) -> C
             // E3_SKIP_KINDS=kind[,kind]: leave out program kinds (used by sensitivity runs to keep a
             // known finding's dedicated program kind out of the way; never set by the registered checks)
             let skip_kind = std::env::var("E3_SKIP_KINDS").ok().is_some_and(|s| s.split(',').any(|k| k == vs[0].1.kind));
-            if skip_kind && attempt < 20 {
-                attempt += 1;
-                continue;
+            if skip_kind {
+                if attempt < 20 {
+                    attempt += 1;
+                    continue;
+                }
+                // the kind is forced for this index: leave the program out
+                break;
             }
             // E3_INJECT_SPLIT=1 (harness self-test only, never set by the registered checks): give p0 a
             // variant that dfir_lang rejects (a same-tick cycle), to exercise the compile-split path
